@@ -157,8 +157,45 @@ func (e *Engine) registerStrings() {
 		if s.IsConst() && t.IsConst() {
 			return mkBool(strings.EqualFold(s.ConstString(), t.ConstString()))
 		}
-		p.unsupported("EqualFold on symbolic strings")
-		return nil
+		// ASCII model: equal lengths and byte-wise equal after lower-casing A-Z
+		ls, lt := s.LenTerm(), t.LenTerm()
+		n := s.MaxLen()
+		if m := t.MaxLen(); m < n {
+			n = m
+		}
+		lower := func(b *smt.Term) *smt.Term {
+			return smt.Ite(smt.And(smt.Ge(b, smt.Int('A')), smt.Le(b, smt.Int('Z'))), smt.Add(b, smt.Int(32)), b)
+		}
+		cs := []*smt.Term{smt.Eq(ls, lt)}
+		// against an ASCII constant without k/s (the only ASCII letters that
+		// non-ASCII runes fold to) a non-ASCII byte can never match: exact model
+		exactConst := false
+		for _, c := range []StrV{s, t} {
+			if c.IsConst() {
+				ok := true
+				for _, ch := range []byte(c.ConstString()) {
+					if ch >= 128 || ch == 'k' || ch == 'K' || ch == 's' || ch == 'S' {
+						ok = false
+					}
+				}
+				exactConst = exactConst || ok
+			}
+		}
+		for k := 0; k < n; k++ {
+			kk := smt.Int(int64(k))
+			bs, bt := p.byteAt(s, kk), p.byteAt(t, kk)
+			if exactConst {
+				cs = append(cs, smt.Implies(smt.Lt(kk, ls), smt.And(smt.Lt(bs, smt.Int(128)), smt.Lt(bt, smt.Int(128)), smt.Eq(lower(bs), lower(bt)))))
+				continue
+			}
+			for _, b := range []*smt.Term{bs, bt} {
+				if !b.IsInt() {
+					p.obligationAssume(smt.Implies(smt.Lt(kk, ls), smt.Lt(b, smt.Int(128))), site, "EqualFold on non-ASCII bytes")
+				}
+			}
+			cs = append(cs, smt.Implies(smt.Lt(kk, ls), smt.Eq(lower(bs), lower(bt))))
+		}
+		return BoolV{T: smt.And(cs...)}
 	}
 	I["strings.Repeat"] = func(p *Path, a []Value, site ssa.Instruction) Value {
 		s := a[0].(StrV)
